@@ -81,7 +81,7 @@ def accepted_only(ck, cases, rs):
             keep.append((c, r))
     return keep
 
-def single_check(prop, tier, seed, oracles, corpus, nq, nt, rule, variant='plain', adopt=(), kinds=None, nrange=(1, 12), force=None, fields_quick=gen.SAFE, level='exploration', post=None):
+def single_check(prop, tier, seed, oracles, corpus, nq, nt, rule, variant='plain', adopt=('TERM', 'CRASH'), kinds=None, nrange=(1, 12), force=None, fields_quick=gen.SAFE, level='exploration', post=None):
     ck = Check(prop, tier, seed, level)
     ck.ev.rule = rule; ck.ev.components = core.COMPONENTS_ENC; ck.ev.assumptions = list(ENC_ASSUME)
     core.build(variant)
@@ -201,7 +201,7 @@ def check_c05(tier, seed):
     return ck.finish()
 
 # ---- C06 ---------------------------------------------------------------------------------------------------
-make_diff_evaluator('C06', 'diff_C06', adopt=())
+make_diff_evaluator('C06', 'diff_C06', adopt=('TERM', 'CRASH'))
 CPU_LEVELS = {'C': 0, 'SSE2': 0x7, 'SSSE3': 0x1f, 'SSE4_1': 0x3f, 'AVX2': 0x1ff, 'ALL': 0xffff}
 @check('C06')
 def check_c06(tier, seed):
@@ -224,7 +224,7 @@ def check_c06(tier, seed):
         for lv in levels:
             c = mk(ck, dict(cfgo, use_cpu_flags=CPU_LEVELS[lv]), cont, n, wh, oracles={'decode': 0, 'parse': 0}); fam.append(c)
         fams.append(fam)
-    run_families(ck, 'C06', 'diff_C06', fams, variant, adopt=())
+    run_families(ck, 'C06', 'diff_C06', fams, variant, adopt=('TERM', 'CRASH'))
     return ck.finish()
 
 # ---- C13 ---------------------------------------------------------------------------------------------------
@@ -411,7 +411,7 @@ def check_c18(tier, seed):
             add({'rate_control_mode': rc, 'min_qp_allowed': mn, 'max_qp_allowed': mx, 'target_bit_rate': rng.choice([20000, 200000, 5000000]), 'look_ahead_distance': rng.choice([0, 17]), 'enc_mode': 8}, rng.choice(['rails', 'noise', 'flat', 'moving']), rng.randint(8, 26))
     for qp in ([10, 50] if tier == 'quick' else [5, 20, 35, 50, 63]):
         add({'qp': qp, 'enable_qp_scaling_flag': 1, 'rate_control_mode': 0, 'max_qp_allowed': rng.choice([63, 63, 50])}, rng.choice(['mix', 'rails']), rng.randint(5, 12))
-    rs = run_batch(ck, cases, 'plain', 'C18', ())
+    rs = run_batch(ck, cases, 'plain', 'C18', ('TERM', 'CRASH'))   # a run that crashes or hangs cannot have honoured the configured quantizer
     for c, r in zip(cases, rs):
         ck.ev.probe('rc_mode_%d' % c['cfg'].get('rate_control_mode', 0))
     return ck.finish()
@@ -431,7 +431,7 @@ def check_c19(tier, seed):
             cfgo = {'intra_period_length': P, 'intra_refresh_type': irt, 'hierarchical_levels': hl, 'scene_change_detection': 0, 'logical_processors': rng.choice([1, 2]), 'enc_mode': 8}
             if rng.random() < 0.15: cfgo['enable_overlays'] = 1; cfgo['enc_mode'] = 6
             cases.append(mk(ck, cfgo, gen.content(rng, kinds=['mix', 'moving'], n=n), n, (64, 64), oracles={'decode': 1, 'parse': 1, 'recon_compare': 0, 'intra_place': 1, 'suffix': 1, 'order': 0}, sim=gen.schedule(rng, allow_buggify=False)))
-    rs = run_batch(ck, cases, 'plain', 'C19', ())
+    rs = run_batch(ck, cases, 'plain', 'C19', ('TERM', 'CRASH'))   # a crash or hang for some (period, refresh type) places no intra frames at all
     for r in rs:
         if r.get('suffix_checked'): ck.ev.probe('random_access_points_checked', r['suffix_checked'])
     probes_enc(ck, rs)
@@ -476,7 +476,7 @@ def check_c20(tier, seed):
     rng.shuffle(tiles)
     for (tc, tr, wh) in tiles[:14 if tier == 'quick' else 105]:
         cases.append(mk(ck, {'tile_columns': tc, 'tile_rows': tr, 'enc_mode': 8, 'logical_processors': 2}, {'kind': 'mix', 'seed': rng.randint(1, 999)}, 2, wh, oracles={'decode': 0, 'parse': 1, 'tools': 1, 'order': 0}))
-    rs = run_batch(ck, cases, 'plain', 'C20', ())
+    rs = run_batch(ck, cases, 'plain', 'C20', ('TERM', 'CRASH'))
     for c, r in zip(cases, rs):
         tu = r.get('tool_usage') or {}
         for k, v in tu.items():
